@@ -5,13 +5,20 @@ import Pastel.FloatFns
 import Pastel.Model.Color
 import Pastel.Model.DeltaE
 import Pastel.Wire
+import Pastel.Model.Distinct
+import Pastel.Model.SetCmd
 
 namespace Pastel
 open Wire
 
 /-- State of the stateful protocol blocks (`scale …`, `dr …`); extended by later modules. -/
 structure OpState where
-  dummy : Unit := ()
+  drLabs : List (Lab3 Float) := []
+  drMetric : Metric := .cie76
+  drRes : Option (DistanceResult Float) := none
+
+/-- `f64::MAX`. -/
+def f64Max : Float := Float.ofBits 0x7fefffffffffffff
 
 def bad : String := "err:bad-op"
 
@@ -145,8 +152,106 @@ def opComp (args : List String) : String :=
     | _ => bad
   | none => bad
 
+def metricOf : String → Option Metric
+  | "cie76" => some .cie76 | "ciede2000" => some .ciede2000 | _ => none
+
+def showIdx (i : Nat) : String := if i = usizeMax then "max" else toString i
+
+def showDr (r : DistanceResult Float) : String :=
+  let es := r.closest.map fun e => s!"{showF e.1} {showIdx e.2}"
+  "ok " ++ " ".intercalate es ++ s!" {showF r.mean} {showF r.min} {showIdx r.pair.1} {showIdx r.pair.2}"
+
+def parseLabs : Nat → List String → Option (List (Lab3 Float) × List String)
+  | 0, rest => some ([], rest)
+  | n + 1, a :: b :: c :: rest => do
+    let l ← parseF a; let x ← parseF b; let y ← parseF c
+    let (ls, rest) ← parseLabs n rest
+    pure ({ l := l, a := x, b := y } :: ls, rest)
+  | _, _ => none
+
+def parseColors : Nat → List String → Option (List (Color Float) × List String)
+  | 0, rest => some ([], rest)
+  | n + 1, toks => do
+    let (c, rest) ← parseC toks
+    let (cs, rest) ← parseColors n rest
+    pure (c :: cs, rest)
+
+def opDr (st : OpState) (args : List String) : OpState × String :=
+  match args with
+  | "new" :: m :: k :: n :: rest =>
+    match metricOf m, k.toNat?, n.toNat? with
+    | some m, some k, some n =>
+      match parseLabs n rest with
+      | some (labs, []) =>
+        let r := drNew f64Max (labDist m labs) n k
+        ({ st with drLabs := labs, drMetric := m, drRes := some r }, showDr r)
+      | _ => (st, bad)
+    | _, _, _ => (st, bad)
+  | ["update", i, a, b, c] =>
+    match i.toNat?, parseF a, parseF b, parseF c, st.drRes with
+    | some i, some a, some b, some c, some r =>
+      let labs := st.drLabs.set i { l := a, a := b, b := c }
+      let r' := drUpdate f64Max (labDist st.drMetric labs) labs.length r i
+      ({ st with drLabs := labs, drRes := some r' }, showDr r')
+    | _, _, _, _, _ => (st, bad)
+  | _ => (st, bad)
+
+def opSa (args : List String) : String :=
+  match args with
+  | tgt :: mode :: m :: k :: iters :: t0 :: cool :: nd :: rest =>
+    match metricOf m, k.toNat?, iters.toNat?, parseF t0, parseF cool, nd.toNat? with
+    | some m, some k, some iters, some t0, some cool, some nd =>
+      let draws := (rest.take nd).filterMap String.toNat?
+      match (rest.drop nd) with
+      | n :: crest =>
+        match n.toNat? with
+        | some n =>
+          match parseColors n crest with
+          | some (cols, []) =>
+            let p : SaParams Float := {
+              initialTemperature := t0, coolingRate := cool, numIterations := iters,
+              target := if tgt = "min" then .min else .mean,
+              mode := if mode = "local" then .local else .global,
+              metric := m, numFixed := k }
+            match saRun f64Max p cols { rest := draws } with
+            | none => "panic"
+            | some s => "ok " ++ " ".intercalate (s.colors.map showC) ++ " | " ++ (showDr s.result).drop 3
+          | _ => bad
+        | none => bad
+      | _ => bad
+    | _, _, _, _, _, _ => bad
+  | _ => bad
+
+def opRearr (args : List String) : String :=
+  match args with
+  | m :: n :: rest =>
+    match metricOf m, n.toNat? with
+    | some m, some n =>
+      match parseColors n rest with
+      | some (cols, []) =>
+        let labs := cols.map lab3Of
+        let key := fun a b => Sc.toI32 (labDist m labs a b * 1000.0)
+        match rearrange key n with
+        | none => "panic"
+        | some perm => "ok " ++ " ".intercalate (perm.map toString)
+      | _ => bad
+    | _, _ => bad
+  | _ => bad
+
+def opSet (args : List String) : String :=
+  match args with
+  | p :: v :: rest =>
+    match setPropOfString p, parseF v, parseC rest with
+    | some p, some v, some (c, []) => "ok " ++ showC (setProp p v c)
+    | _, _, _ => bad
+  | _ => bad
+
 def runOp (st : OpState) (toks : List String) : OpState × String :=
   match toks with
+  | "dr" :: args => opDr st args
+  | "sa" :: args => (st, opSa args)
+  | "rearr" :: args => (st, opRearr args)
+  | "set" :: args => (st, opSet args)
   | "from" :: kind :: args => (st, opFrom kind args)
   | "to" :: kind :: args => (st, opTo kind args)
   | "adj" :: kind :: args => (st, opAdj kind args)
